@@ -103,8 +103,13 @@ Definition update_steering (letter : N) (sec : section) (ps : pstate) : pstate :
          (p_dlm ps) (p_las ps) (p_data ps) (p_las3data ps)
   else ps.
 
-Definition route (title : list N) (letter : N) (sec : section) (l : las) : las :=
-  let no_us := negb (in_str ch_us title) in
+(* version_is_3: provisional_version == 3.0 at this point (after the steering update).  Only a LAS 3.0
+   file uses titles with an underscore for sections of its own (~Core_Definition ...): there a title with
+   an underscore is not the ~C / ~P section. *)
+Definition is_v30 (v : hval) : bool :=
+  match version_of v with Some V30 => true | _ => false end.
+Definition route (version_is_3 : bool) (title : list N) (letter : N) (sec : section) (l : las) : las :=
+  let no_us := negb (version_is_3 && in_str ch_us title) in
   if ((letter =? 67) && no_us) || contains (s2l "~Log_Definition") title then
     mklas (l_version l) (l_well l) sec (l_params l) (l_other l) (l_custom l) (l_data l) (l_engine_numpy l)
   else if ((letter =? 80) && no_us) || contains (s2l "~Log_Parameter") title then
@@ -137,7 +142,7 @@ Definition step_section (o : ropts) (ls : list (list N)) (ps : pstate) (p : spos
               | None => inr EKey                       (* title is "~" alone: IndexError *)
               | Some letter =>
                   let ps' := update_steering letter sec ps in
-                  inl (with_las ps' (route title letter sec (p_las ps')))
+                  inl (with_las ps' (route (is_v30 (p_version ps')) title letter sec (p_las ps')))
               end
           end
       end
